@@ -362,7 +362,7 @@ func evalClient(r *mc.Run, spec answerSpec, e enc.Encoder) {
 
 func serverCases(thorough bool) []Case {
 	var out []Case
-	body := []byte{'a', '0', 'z', 'Z', '-', 0xC8}
+	body := []byte{'a', '0', 'z', 'Z', '-', 0xC8, '.', '\\'}
 	dl := domainLabels(domain)
 	other := domainLabels("other.example.net")
 	add := func(first []byte, origin string, qt uint16) {
@@ -405,6 +405,18 @@ func serverCases(thorough bool) []Case {
 					l = append(l, x)
 				}
 				add(l, "short-name", 10)
+			}
+		}
+	}
+	// labels that contain a dot or a backslash byte next to the domain: in presentation form
+	// they end in an escape right where the domain is cut off
+	for _, pre := range []string{"", "a", "ab", "cab0", "vabc", "yabcT", "zz00"} {
+		for _, tail := range []string{".", "\\", ".\\", "\\.", "\\1", "\\12", "\\123", "\\999", "..", "\\\\"} {
+			for _, from := range []string{"foreign", "own"} {
+				// one label "<pre><tail><first domain label>" followed by the rest of the domain
+				l1 := append([]byte(pre+tail), dl[0]...)
+				out = append(out, Case{Side: "server", Labels: append([][]byte{l1}, dl[1:]...), QType: 10, QClass: 1, Origin: "escape-at-domain-boundary", From: from})
+				out = append(out, Case{Side: "server", Labels: append([][]byte{[]byte(pre + tail)}, dl...), QType: 10, QClass: 1, Origin: "escape-at-domain-boundary", From: from})
 			}
 		}
 	}
